@@ -1,5 +1,6 @@
 import M3d.Basic
 import M3d.Model.Sdf
+import M3d.Model.SdfTriDeg
 import M3d.Drv.Kernels
 /-!
 Line-protocol handler for C06 (signed distance fields). Core-only.
@@ -184,6 +185,25 @@ def handleBits (kind : String) (ws : List String) : Option String := do
               let dg := cp.dist envF c
               some s!"{hx (meshSign (parityInside inb cnt) d)} {v3s cp} {boolStr (dg == d)}"
       | _ => none
+  | "b.meshd" =>
+      -- a mesh with collapsed slivers: faces evaluated by `triClosestN` (`mesh_sdf_exhaustive_min_slivers`)
+      match ws with
+      | inb :: cnt :: gf :: n :: rest =>
+          let inb := inb == "1"
+          let cnt ← cnt.toNat?
+          let gf ← gf.toNat?
+          let n ← n.toNat?
+          let xs ← parseFloats rest
+          let (tris, xs) ← readTris n 0 xs
+          let (c, _) ← mk3 xs
+          match meshScanN envF tris c with
+          | none => some "empty"
+          | some (d, _, _) =>
+              let f ← tris[gf]?
+              let cp := triClosestN envF f.1.a f.1.b f.1.c c
+              let dg := cp.dist envF c
+              some s!"{hx (meshSign (parityInside inb cnt) d)} {v3s cp} {boolStr (dg == d)}"
+      | _ => none
   | "b.mesh2" =>
       -- 2-D `GroupedSegmentsToSDF`: value = sign(parity) × linear-scan minimum over the pieces whose distance is
       -- not NaN (`mesh2_sdf_exhaustive_min_degenerate`), point/normal of the face the real search returned,
@@ -260,6 +280,11 @@ def handleBits (kind : String) (ws : List String) : Option String := do
   | "b.tri3" => do
       let (t0, xs) ← mk3 xs; let (t1, xs) ← mk3 xs; let (t2, xs) ← mk3 xs; let (c, _) ← mk3 xs
       some s!"{v3s (triClosest envF t0 t1 t2 c)} {hx (triDist envF t0 t1 t2 c)}"
+  | "b.tri3d" => do
+      -- `Triangle.Closest` / `Triangle.Dist` with the edge loops run from `+Inf` and the NaN test
+      -- (`triangle_repeated_corner_dist_exact`: a number, the distance to the remaining edge; `triangle_point_dist_exact`)
+      let (t0, xs) ← mk3 xs; let (t1, xs) ← mk3 xs; let (t2, xs) ← mk3 xs; let (c, _) ← mk3 xs
+      some s!"{v3s (triClosestN envF t0 t1 t2 c)} {hx (triDistN envF t0 t1 t2 c)}"
   | "b.prof" => do
       let (minZ, xs) ← mk1 xs; let (maxZ, xs) ← mk1 xs; let (p2, xs) ← mk2 xs; let (s, xs) ← mk1 xs
       let (c, _) ← mk3 xs
@@ -451,6 +476,22 @@ def handleExact (kind : String) (ws : List String) : Option String := do
       let q := triClosestQ t0 t1 t2 c
       some (if segBoundary3 t0 t1 c || segBoundary3 t1 t2 c || segBoundary3 t2 t0 c then "b"
             else if veq3 q t0 then "v0" else if veq3 q t1 then "v1" else if veq3 q t2 then "v2" else "o")
+  | "x.tri3d" => do
+      -- collapsed triangle: the `sqrt`-free edge scan with the zero-length edge skipped
+      -- (`triangle_repeated_corner_exact_mode`): which corner, and there the correctly rounded root
+      let (t0, xs) ← mk3 xs; let (t1, xs) ← mk3 xs; let (t2, xs) ← mk3 xs; let (c, _) ← mk3 xs
+      match triEdgeScanQ t0 t1 t2 c with
+      | none =>
+          -- the three corners are one point (`triangle_point_dist_exact`): `Closest = t[0]`, `Dist = c.Dist(t[0])`
+          let sf ← ratToFloat (c.sqDist t0)
+          some s!"e {q3s t0} {hx (Float.sqrt sf)}"
+      | some (s, p) =>
+          if (!(veq3 t0 t1) && segBoundary3 t0 t1 c) || (!(veq3 t1 t2) && segBoundary3 t1 t2 c)
+              || (!(veq3 t2 t0) && segBoundary3 t2 t0 c) then some "b"
+          else if veq3 p t0 || veq3 p t1 || veq3 p t2 then
+            let sf ← ratToFloat s
+            some s!"e {q3s p} {hx (Float.sqrt sf)}"
+          else some "i fin"
   | "x.tri2" => do
       let (p0, xs) ← mk2 xs; let (p1, xs) ← mk2 xs; let (p2, xs) ← mk2 xs; let (c, _) ← mk2 xs
       let cands := [tri2EdgeCand 0 p0 p1 c, tri2EdgeCand 1 p1 p2 c, tri2EdgeCand 2 p2 p0 c]
